@@ -402,12 +402,13 @@ pub fn gen_build(run: &mut Run, seed: u64, thorough: bool) {
                 }
             }
         }
-        // key lengths (C10 / C12): every length class for s, e, rs
-        for dh in ["25519", "P256", "448"] {
+        // key lengths (C10 / C12): every length class for s, e, rs; on a pattern that needs all keys (KK)
+        // and on this pattern, where the key may be supplied although the role does not need it
+        for (dh, kpat) in [("25519", "KK"), ("P256", "KK"), ("448", "KK"), ("25519", *p), ("P256", *p)] {
             let pub_len = pub_len_of("toy", dh).unwrap();
             for which in 0..3 {
-                for len in [0usize, 1, 31, 32, 33, pub_len - 1, pub_len, pub_len + 1, 56, 57, 64, 65, 66, 200] {
-                    let name = format!("Noise_KK_{dh}_AESGCM_BLAKE2b");
+                for len in [0usize, 1, 31, 32, 33, pub_len - 1, pub_len, pub_len + 1, 56, 57, 64, 65, 66, 100, 200] {
+                    let name = format!("Noise_{kpat}_{dh}_AESGCM_BLAKE2b");
                     let mut spec = BuildSpec {
                         name: name.clone(),
                         initiator: r.chance(1, 2),
@@ -1002,6 +1003,30 @@ pub fn run_stateless(cfg: &TransportCfg, sc: &mut Sc) {
                 sc.viol("C04", format!("{}: message reflected to its sender was accepted", cfg.name));
             }
             let _ = rd;
+        }
+    }
+    // boundary payload sizes: the largest legal payloads must round-trip, one more must be refused (C14, C16)
+    if !rekeyed {
+        for plen in [65519usize, 65518, 65504, 65503] {
+            let p = r.bytes(plen);
+            let n = r.next() % 1000;
+            let o = sc.ex.st_write(1, n, &p, plen + 16);
+            sc.check_panic(&o, "st_write at the size limit");
+            match o.bytes().map(<[u8]>::to_vec) {
+                Some(m) => {
+                    let o2 = sc.ex.st_read(2, n, &m, plen);
+                    sc.check_panic(&o2, "st_read at the size limit");
+                    if o2.bytes() != Some(p.as_slice()) {
+                        sc.viol("C16", format!("{}: {plen}-byte payload written under nonce {n} is not read back: {:?}", cfg.name, o2.err()));
+                        sc.viol("C14", format!("{}: stateless read of a legal {}-byte message failed: {:?}", cfg.name, m.len(), o2.err()));
+                    }
+                },
+                None => sc.viol("C14", format!("{}: stateless write of a legal {plen}-byte payload failed: {o:?}", cfg.name)),
+            }
+        }
+        let o = sc.ex.st_write(1, 1, &vec![0u8; 65520], 70000);
+        if o.err() != Some("Input") {
+            sc.viol("C14", format!("{}: stateless write of a 65520-byte payload gave {o:?}", cfg.name));
         }
     }
     // equality with the stateful sender: fresh identical pair in stateful mode
